@@ -138,10 +138,12 @@ class VerilogTranslationPass( BasePass ):
       if m.has_metadata( c.explicit_file_name ) and \
          m.get_metadata( c.explicit_file_name ):
         fname = m.get_metadata( c.explicit_file_name )
-        if '.v' in fname:
-          filename = fname.split('.v')[0]
-        elif '.sv' in fname:
-          filename = fname.split('.sv')[0]
+        # Only a trailing suffix is removed ( 'Stage.v1.v' and 'Stage.v2.v'
+        # are two files )
+        if fname.endswith( '.v' ):
+          filename = fname[:-2]
+        elif fname.endswith( '.sv' ):
+          filename = fname[:-3]
         else:
           filename = fname
 
